@@ -82,21 +82,13 @@ def r02a(ctx, trimmed_lists):
 
 
 def trimmed_pair_lists(m):
-    """Attributes of EditDistance that only receive (fn, tn) pairs under fn == tn."""
-    out = set()
+    """Attributes of EditDistance that only receive (fn, tn) pairs under fn == tn (inline loop or equal-pair helper)."""
+    from .. import scans
     q = m.find_class("EditDistance")
     if not q:
-        return out
+        return set()
     init = m.method(q, "__init__")
-    for lp in walk_no_nested(init.node):
-        if isinstance(lp, ast.For) and isinstance(lp.iter, ast.Call) and call_name(lp.iter) == "zip":
-            for a in ast.walk(lp):
-                if isinstance(a, ast.Call) and isinstance(a.func, ast.Attribute) and a.func.attr == "append" and self_attr(a.func.value):
-                    tv = [x.id for x in lp.target.elts] if isinstance(lp.target, ast.Tuple) else []
-                    facts = [ast.unparse(t).replace(" ", "") for t, pol in flatten_conditions(dominating_conditions(a)) if pol]
-                    if len(tv) == 2 and f"{tv[0]}=={tv[1]}" in facts:
-                        out.add(self_attr(a.func.value))
-    return out
+    return {sc["attr"] for sc in scans.equal_pair_scans(m, q, init) if sc["guarded"]}
 
 
 def r02b(ctx):
